@@ -368,7 +368,13 @@ def autodetect_consistency(t, L, enc, wr):
 
 
 def passes_of(tr):
-    return [list(r) for r in tr.cap.reads]
+    """the password sequences the passes over the training file yielded (the --multiword word list is another file)"""
+    out = []
+    for r, fi in zip(tr.cap.reads, tr.cap.file_inputs):
+        if os.path.basename(str(getattr(fi, "filename", ""))) == "multiword.txt":
+            continue
+        out.append(list(r))
+    return out
 
 
 def leak_check(tr, enc):
@@ -401,7 +407,19 @@ def run_c19(t, tier, res):
     if len(L) < 2:
         res.rejected = "tiny_list"
         return
-    scratch.fresh_disk()
+    wr = scratch.fresh_disk()
+    if t.chance(1, 3):
+        # --multiword FILE given to every variant (also together with --prefixcount): a plain word list whose words make
+        # up passwords of L that are not frequent enough to be split on their own
+        words = t.sample([w for w in trainer.WORDS if len(w) >= 4] + ["horse", "correct", "staple", "battery"], t.between(2, 5))
+        words = [w for w in words if trainer.representable(w, enc)]
+        for _ in range(t.between(1, 3)):
+            L.insert(t.draw(len(L) + 1), t.choice(words) + t.choice(words))
+        mwf = os.path.join(wr, "multiword.txt")
+        with open(mwf, "wb") as f:
+            f.write("".join(w + "\n" for w in words).encode(enc))
+        opts = dict(opts, multiword=mwf)
+        res.stats["multiword_file_given_to_every_variant"] += 1
     variants = []
     variants.append(("plain", dict(opts), render(t, L, enc, "plain", False)))
     variants.append(("hex", dict(opts), render(t, L, enc, "hex", t.chance(1, 2))))
